@@ -174,9 +174,48 @@ def roundtrip(kind, n, full):
     return body
 
 
+INNER_WS = (" ", "  ", "\n", "\t", " \n ")
+
+
+def inner_whitespace(kind):
+    """Text values with inner blanks, runs of blanks, newlines and tabs survive
+    the round trip unchanged (only SURROUNDING white space is trimmed)."""
+    fields, child = MSG_SPECS[kind]
+    cfields = PART_SPECS[child] if child else []
+
+    def body(d: Draw):
+        wire = install_tree_et()
+        import indi.message  # noqa
+        from indi.message.base import IndiMessage
+        # the two words are concrete: with symbolic characters CrossHair's model
+        # of str.split() produced a counterexample that did not reproduce
+        text = "x<" + d.choice(INNER_WS, "inner") + "&y"
+        kw = draw_fields(d, fields, frozenset(), 0)
+        if "value" in kw:
+            kw["value"] = text
+        if child:
+            ckw = draw_fields(d, cfields, frozenset(), 0)
+            if "value" in [f[0] for f in cfields if f[2] == "t"]:
+                ckw["value"] = text
+            kw["children"] = (part_class(child)(**ckw),)
+        m = msg_class(kind)(**kw)
+        try:
+            m2 = IndiMessage.from_xml(wire(m.to_xml()))
+        except HarnessError:
+            raise
+        except Exception:
+            return verdict(False, "the library cannot parse what it serialised")
+        return verdict(norm_view(msg_view(m2)) == norm_view(msg_view(m)), "inner white space of a text value changed in the round trip")
+    return body
+
+
 def conditions(tier):
     out = []
     thorough = tier == "thorough"
+    for k in ("SetTextVector", "DefTextVector", "NewTextVector", "SetBLOBVector"):
+        out.append(Condition(f"inner-ws/{k}", make_condition(inner_whitespace(k), 14, 3, 3),
+                             about=f"{k}: text with inner blanks / newline / tab between two words (markup characters included)",
+                             encodes=ENC, bounds="text = word + (one of 5 white-space runs) + word", timeout=600))
     for k in PLAIN_KINDS:
         out.append(Condition(f"roundtrip/{k}", make_condition(roundtrip(k, 0, thorough), 8, 4, 3),
                              about=f"{k}: to_xml, wire, from_xml, to_xml", encodes=ENC,
